@@ -299,6 +299,31 @@ def r07(cx):
                      bad_detail=f"`({m1.group(1)}*) obj+offset` scales the byte offset by {m1.group(1)}'s width", anchor="capi::gen_c_pointed", sub="bytewise")
 
 
+def _history_source(cx):
+    """the API source of the zoo root generated AFTER the declarations were generated with another conf (what ContextCpu
+    does before a GPU context builds the same classes), in a fresh interpreter"""
+    lab = Lab(cx.m)
+    I = lab.I
+    out = {}
+
+    def thunk():
+        zoo = build_zoo(lab)
+        for nm in ("Big", "T", "A1", "AT", "AS", "M", "D2", "U"):
+            I.call(I.getattr(zoo[nm], "_gen_c_decl"), [{}], {})
+        try:
+            I.call(I.getattr(zoo["Big"], "_gen_kernels"), [{}], {})
+        except Exception:
+            pass
+        out["src"] = I.getattr(I.call(I.getattr(zoo["Big"], "_gen_c_api"), [dict(CONF)], {}), "source")
+        return None
+
+    res = I.explore(thunk, max_paths=8)
+    if len(res) != 1 or res[0]["exc"] is not None:
+        e = res[0]["exc"]
+        raise AnalysisError(f"type zoo (history order) cannot be evaluated: {e.etype if e else 'fork'}: {e.msg if e else res[0]['conds']}")
+    return out["src"]
+
+
 @rule("T6", ["C15", "C14"], "every pointer into object memory carries the global-memory placeholder; every function the function placeholder; API wrapped in include guards")
 def t6(cx):
     Z = _zoo_sources(cx)
@@ -331,6 +356,15 @@ def t6(cx):
     if not [i for i in cx.insts if i.verdict == "violation" and i.rule.endswith("function")]:
         cx.ok(None, construct=f"{nfun} function definitions all start with /*gpufun*/", detail="device/inline qualifier after substitution", anchor="capi::gen_c_decl_from_kernel", sub="function")
     cx.need(nptr >= 100 and nfun >= 70, f"zoo too small: {nptr} pointer types, {nfun} functions")
+    # the API source for a configuration is a function of (class, configuration) only -- not of what was generated before
+    hist = _history_source(cx)
+    if hist != Z["src"]:
+        a_, b_ = Z["src"].splitlines(), hist.splitlines()
+        k = next((i for i, (x, y) in enumerate(zip(a_, b_)) if x != y), min(len(a_), len(b_)))
+        cx.bad(None, construct=f"API of the zoo root generated after its declarations were generated with another configuration differs (first difference at line {k}: `{(b_[k] if k < len(b_) else '<end>').strip()[:90]}` instead of `{(a_[k] if k < len(a_) else '<end>').strip()[:90]}`)",
+               detail="the generated source depends on the generation HISTORY (a memo keyed by the class alone?): a GPU context that builds classes a CPU context declared before gets text generated for the other configuration, e.g. without the global-memory / device-function placeholders", anchor="capi::gen_code", sub="history")
+    else:
+        cx.ok(None, construct="API source of the zoo root is identical whether or not declarations were generated before with another configuration", detail="generation is a function of (class, configuration)", anchor="capi::gen_code", sub="history")
     # placeholders of the default configuration are the ones the specialiser replaces
     dc = cx.m.module_assign("typeutils", "default_conf")
     vals = {norm(k).strip("'"): norm(v).strip("'") for k, v in zip(dc.keys, dc.values)}
